@@ -138,6 +138,14 @@ func isRequiredKey(node *internalSchema.ObjectNode, key string) bool {
 
 func (b *exampleBuilder) buildObjectKey(k internalSchema.ObjectNodeKey) ([]byte, error) {
 	if !k.IsShortcut {
+		// The key as it is written in the schema: encoding the decoded key again
+		// would change its spelling ("<" into "\u003c", "\/" into "/").
+		if k.Lex.File() != nil {
+			if v := k.Lex.Value(); v.InQuotes() {
+				return v[1 : len(v)-1], nil
+			}
+		}
+
 		// The key is stored decoded: escape it again for the JSON output.
 		q, err := json.Marshal(k.Key)
 		if err != nil {
